@@ -1,3 +1,5 @@
 pub mod chaos;
 pub mod driver;
+pub mod exh;
 pub mod sim;
+pub mod sweep;
